@@ -6,6 +6,8 @@ import itertools
 
 import numpy as np
 
+from vf.genlib import same_polygon_shape as genlib_same
+
 ID = 'C11'
 LEVEL = 'exploration'
 TECHNIQUE = ('runtime monitoring: shapely-predicate oracle computed independently from the inputs on every execution of assign_lines_to_regions, and a page-level invariant '
@@ -195,7 +197,7 @@ def check(case, mon, ctx):
                     if l.baseline.shape != b.shape or np.abs(l.baseline - b).max() > 1e-6:
                         mon.violation('inside-line-placed-unchanged', dict(w, placed=l.baseline))
                     T = sg.Polygon(t)
-                    if T.is_valid and Pv.contains(T) and lp.symmetric_difference(T).area > 1e-6 * max(T.area, 1.0):
+                    if T.is_valid and Pv.buffer(-1e-3).contains(T) and not genlib_same(l.polygon, t):
                         mon.violation('inside-line-placed-unchanged', dict(w, what='outline', placed=l.polygon))
             else:
                 if touches is False:
